@@ -319,7 +319,8 @@ func Addrs(x interface{}) map[uintptr]string {
 				walk(path+"."+f.Name, fv)
 			}
 		case reflect.Slice:
-			if v.Len() > 0 && t.Elem().Size() > 0 {
+			// a backing array exists whenever there is capacity, also under an empty slice (s = s[:0])
+			if v.Cap() > 0 && t.Elem().Size() > 0 {
 				m[v.Pointer()] = path + "[]"
 			}
 			for i := 0; i < v.Len(); i++ {
